@@ -107,7 +107,8 @@ impl RndGen {
 
     fn vol(rng: &mut Sm, large: bool) -> u32 {
         if large {
-            return rng.range(1 << 27, 1 << 28) as u32;
+            // up to 3 * 2^30: a single order may exceed 2^31 (the generator keeps every sum < 2^32)
+            return if rng.chance(0.3) { rng.range(1 << 30, 3 << 30) as u32 } else { rng.range(1 << 27, 1 << 28) as u32 };
         }
         match rng.below(10) {
             0..=5 => rng.range(1, 10) as u32,
@@ -205,7 +206,8 @@ impl RndGen {
                 } else {
                     Some(band.price(rng))
                 };
-                new_ops.push(Op::Create { bid, vol, trader: rng.below(50) as u32, price });
+                let trader = if rng.chance(0.05) { rng.next() as u32 } else { rng.below(50) as u32 };
+                new_ops.push(Op::Create { bid, vol, trader, price });
             } else if pick(p.w_place) {
                 let news: Vec<usize> = m.orders.iter().filter(|o| o.status == NEW).map(|o| o.id).collect();
                 let id = if !news.is_empty() && !rng.chance(p.p_any_target) {
@@ -252,7 +254,8 @@ impl RndGen {
                         queue_target = Some((bid, pr));
                     }
                 }
-                new_ops.push(Op::CreatePlace { bid, vol, trader: rng.below(50) as u32, price });
+                let trader = if rng.chance(0.05) { rng.next() as u32 } else { rng.below(50) as u32 };
+                new_ops.push(Op::CreatePlace { bid, vol, trader, price });
             } else if pick(p.w_cancel) {
                 let act: Vec<usize> = m.orders.iter().filter(|o| o.status == ACTIVE).map(|o| o.id).collect();
                 let id = if !act.is_empty() && !rng.chance(p.p_any_target) {
@@ -390,7 +393,12 @@ impl RndGen {
             }
         }
         if p.drain {
-            push_drain_tail(&mut ops, m.trading);
+            if large_hist || m.traded > (1 << 30) {
+                // keep the cumulative traded-volume counter below 2^32 through the drain probes
+                push_drain_tail_with_resets(&mut ops, m.trading);
+            } else {
+                push_drain_tail(&mut ops, m.trading);
+            }
         }
         History { cfg, ops }
     }
@@ -403,6 +411,18 @@ pub fn push_drain_tail(ops: &mut Vec<Op>, trading: bool) {
     ops.push(Op::Advance(1));
     ops.push(Op::Drain { bid: true });
     ops.push(Op::Advance(1));
+    ops.push(Op::Drain { bid: false });
+}
+
+pub fn push_drain_tail_with_resets(ops: &mut Vec<Op>, trading: bool) {
+    if !trading {
+        ops.push(Op::SetTrading(true));
+    }
+    ops.push(Op::Advance(1));
+    ops.push(Op::ResetTradeVol);
+    ops.push(Op::Drain { bid: true });
+    ops.push(Op::Advance(1));
+    ops.push(Op::ResetTradeVol);
     ops.push(Op::Drain { bid: false });
 }
 
